@@ -1505,7 +1505,10 @@ def value_attr(it, v, a, n):
                     d.keyobj[f] = K(f)
                 return d
             return Native(asd, 'namedtuple._asdict')
-    if isinstance(v, K) and isinstance(v.v, (bytes, bytearray)) and a in ('tobytes', 'release', 'toreadonly'):
+    if isinstance(v, K) and isinstance(v.v, (bytes, bytearray)) and a in ('nbytes', 'itemsize', 'format', 'ndim', 'readonly', 'obj'):
+        # attributes of a memoryview over bytes (modelled as the bytes it views)
+        return {'nbytes': K(len(v.v)), 'itemsize': K(1), 'format': K('B'), 'ndim': K(1), 'readonly': K(isinstance(v.v, bytes)), 'obj': v}[a]
+    if isinstance(v, K) and isinstance(v.v, (bytes, bytearray)) and a in ('tobytes', 'release', 'toreadonly', 'cast', 'tolist', '__enter__', '__exit__'):
         return Bound(v, Native(lambda it_, args, kw, node, _a=a: val_method(it_, args[0], _a, args[1:], kw, node), 'val.' + a))
     if isinstance(v, K) and not hasattr(v.v, a):
         raise RaiseEx('AttributeError', f'{type(v.v).__name__} object has no attribute {a}', n)
@@ -1583,8 +1586,17 @@ def val_method(it, v, name, args, kw, node):
             except _PY_ERRORS as e:
                 raise RaiseEx(type(e).__name__, str(e)[:60])
             return from_const(r)
-    if isinstance(v, K) and isinstance(v.v, (bytes, bytearray)) and name in ('tobytes', 'release', 'toreadonly'):
-        return K(bytes(v.v)) if name == 'tobytes' else v if name == 'toreadonly' else K(None)      # memoryview is modelled as the bytes it views
+    if isinstance(v, K) and isinstance(v.v, (bytes, bytearray)) and name in ('tobytes', 'release', 'toreadonly', 'cast', 'tolist', '__enter__', '__exit__'):
+        # memoryview is modelled as the bytes it views
+        if name == 'cast':
+            if args and isinstance(args[0], K) and args[0].v in ('B', 'c', 'b') and args[0].v == 'B':
+                return v
+            raise Fail(f'memoryview.cast({args[0] if args else ""}) is not modelled')
+        if name == 'tolist':
+            return ListV([K(x) for x in v.v])
+        if name == '__enter__':
+            return v
+        return K(bytes(v.v)) if name == 'tobytes' else v if name == 'toreadonly' else K(None)
     if isinstance(v, K) and isinstance(v.v, bytearray):
         r = bytearray_method(it, v, name, args, kw)
         if r is not None:
